@@ -732,7 +732,7 @@ func detectExprToken(vs []string) bool {
 	// - name min max
 	if len(vs) == 0 {
 		return false
-	} else if len(vs) == 1 || (len(vs) == 2 && len(vs[1]) == 0) {
+	} else if len(vs) == 1 || len(vs[1]) == 0 {
 		return true
 	}
 	v := vs[1]
